@@ -39,6 +39,14 @@ fn stranger() -> Key {
   Key::ed(299)
 }
 
+const ISSUER2: &str = "did:example:issuer2";
+fn ik2() -> Key {
+  Key::ed(24)
+}
+fn issuer2_doc() -> CoreDocument {
+  serde_json::from_value(json!({"id": ISSUER2, "verificationMethod": [method_json(&format!("{}#k1", ISSUER2), ISSUER2, &ik2())], "assertionMethod": [format!("{}#k1", ISSUER2)]})).unwrap()
+}
+
 fn issuer_doc() -> CoreDocument {
   serde_json::from_value(json!({"id": ISSUER, "verificationMethod": [method_json(&format!("{}#k1", ISSUER), ISSUER, &ik())], "assertionMethod": [format!("{}#k1", ISSUER)]})).unwrap()
 }
@@ -547,6 +555,56 @@ impl Cx {
     }
   }
 
+  /// verify_signature over two trusted issuers: the credential issuer must be the DID of the key that verified.
+  fn two_issuers(&mut self, rng: &mut Rng) {
+    self.rep.eval();
+    // 0 honest issuer 1; 1 honest issuer 2; 2 signed by issuer 1 (kid issuer1#k1) but iss = issuer 2; 3 the converse;
+    // 4 kid of issuer 1 but signed with issuer 2's key
+    let v = rng.below(5);
+    let (kid_did, iss, signer) = match v {
+      0 => (ISSUER, ISSUER, ik()),
+      1 => (ISSUER2, ISSUER2, ik2()),
+      2 => (ISSUER, ISSUER2, ik()),
+      3 => (ISSUER2, ISSUER, ik2()),
+      _ => (ISSUER, ISSUER, ik2()),
+    };
+    let mut spec = CredSpec::minimal(iss, Some("did:example:subject"), BOUND_ISS - 10);
+    spec.subject_props.insert("always".into(), json!(1));
+    let mut claims = spec.claims_json(&Map::new());
+    let d = disclosure(rng, "given_name", &json!("Alice"));
+    claims["vc"]["credentialSubject"].as_object_mut().unwrap().insert("_sd".into(), json!([digest_of(&d)]));
+    let header = json!({"alg":"EdDSA","typ":"sd-jwt","kid":format!("{}#k1", kid_did)});
+    let token = jwt(&header, &Value::Object(claims), &signer);
+    let presented = if rng.bool() { vec![d] } else { vec![] };
+    let sd = SdJwt::new(token.clone(), presented, None);
+    let docs = [self.issuer.clone(), issuer2_doc()];
+    let case = json!({"two_issuers_variant": v, "jwt": token, "kid": format!("{}#k1", kid_did), "iss": iss});
+    self.rep.distinct("nontrivial", &format!("two-issuers|{}", v));
+    let validator = SdJwtCredentialValidator::with_signature_verifier(EdDSAJwsVerifier::default(), SdObjectDecoder::new_with_sha256());
+    let r = catch(|| validator.verify_signature::<_, Object>(&sd, &docs, &JwsVerificationOptions::default()).map(|d| d.credential.issuer.url().to_string()));
+    match r {
+      Err(pn) => self.rep.violation(&format!("verify_signature-panic@{}", pn.file_only()), &pn.msg, case),
+      Ok(Ok(issuer)) => {
+        self.rep.inc("two_issuers_accepted");
+        if v >= 2 {
+          self.rep.violation(
+            if v == 4 { "credential-accepted-although-false:signature" } else { "credential-accepted-although-false:issuer-differs-from-signing-document" },
+            "verify_signature over two trusted issuers accepted an SD-JWT whose issuer is not the DID of the key that verified it",
+            case,
+          );
+        } else if issuer != iss {
+          self.rep.violation("reconstructed-credential-differs", "issuer of the returned credential differs", case);
+        }
+      }
+      Ok(Err(_)) => {
+        self.rep.inc("two_issuers_rejected");
+        if v < 2 {
+          self.rep.violation("credential-rejected-although-all-hold", "verify_signature rejected an honest SD-JWT of a trusted issuer", case);
+        }
+      }
+    }
+  }
+
   fn kb_scenario(&mut self, rng: &mut Rng, p: &KbPlan) {
     self.rep.eval();
     let (sd, o, claims) = build_kb(rng, p, &self.issuer_jwt.clone());
@@ -680,6 +738,9 @@ fn main() {
       }
     }
     cx.cred_scenario(&mut rng, &p);
+    if i % 8 == 0 {
+      cx.two_issuers(&mut rng);
+    }
     let mut k = KbPlan::good(&mut rng);
     match i % 6 {
       0 => {}
